@@ -27,3 +27,30 @@ reg("C13", "other",
     "in an error position (Err / Some(Err)); hence no error becomes end-of-iteration and no shape is built from a failed read; "
     "no partial-read API (Read::read etc.) anywhere; byteorder reads via read_exact. Not decided: equality of the shapes "
     "returned before the cut with the originals (C01), panics on malformed counts (C07).")
+TS = ("typestate fixpoint over abstract writer states (E4) whose transfer functions are derived from the abstract paths of "
+      "write_shape/finalize, plus flow rules on path order")
+reg("C09", "other", TS,
+    "Necessary invariants checked in every abstract writer state reachable under ALL histories of {write, write(other type), "
+    "finalize} (fixpoint, not a bound), with and without an index: headers only at offset 0, record bytes/index entries only at "
+    "the end after a header (W1-W3), finalize post-condition (current header, cursor at end, flushed, dirty cleared), write "
+    "post-condition, finalize-without-changes does nothing, drop = finalize, write_shapes = write_shape per item with `?`, "
+    "constructor state. The defect 'finalize before first write duplicates the header' was found by this fixpoint (history "
+    "new; finalize; write) and repaired in /repo (021d4a9). Not decided: byte equality itself (argued from the invariants).")
+reg("C10", "other", TS + "; who-writes rule; abstract fault enumeration on write_shape_and_record",
+    "The first write stores S::shapetype() into the header and nothing else in the crate assigns that field; on every path of "
+    "write_shape returning the mismatch error there is no destination operation and no store through self, and the error names "
+    "(file type, offered type); a rejected write is the identity on every reachable abstract state; in "
+    "write_shape_and_record a failing write_shape never reaches the row write.")
+reg("C11", "other", TS,
+    "Commit discipline as invariants of every reachable state: append-only records/entries and headers only at 0 (all "
+    "histories), lengths and counters advanced only after the bytes they describe were emitted, no seek outside finalize and "
+    "the header reservation, the placeholder header declares the constructors' 50 words, finalize's per-destination sequence "
+    "is exactly seek(0), header, seek(end), flush. The step from these invariants to 'any persisted prefix shows a prefix of "
+    "the shapes' is argued in DESIGN.md, byte-level cuts are not enumerated.")
+reg("C04", "other",
+    "abstract paths of write_shape/finalize and of the index parser; linear forms for the length and count formulas (E2)",
+    "The index entry is (BE running length before the record, BE content length) with the increment after the emission; the "
+    ".shx header equals the .shp header except for the length, which in linear form is 50 + 4*(rec_num-1) with rec_num "
+    "counting successful writes; the reader parses two BE i32 per entry and its count formula composed with the writer's "
+    "length formula is the identity; shape_count = index length, read_nth_shape_as is None iff i >= len and seeks to "
+    "2*offset[i], size_hint forwards the index iterator's hint. 'Iteration = random access' is C14 + C15.")
